@@ -5,6 +5,9 @@ CONSTANTS
   Variant = "ok"
   MidCrash = FALSE
   ReqDescs = {"legacy/0", "p2sh-segwit/0", "bech32/0", "bech32m/0", "legacy/1", "p2sh-segwit/1", "bech32/1", "bech32m/1"}
+  Hard = {"bech32/1"}
+  ViaReserve = {"legacy/1", "p2sh-segwit/1", "bech32/1", "bech32m/1"}
+  InitLocks = {"plain", "unlocked"}
   TopUps = {0, 5}
 INIT InitObs
 NEXT Stutter
